@@ -2,6 +2,8 @@ import MakoModel.PyExpr.Model
 import MakoModel.PyExpr.LemmasTotal
 import MakoModel.PyExpr.LemmasComplete
 import MakoModel.PyExpr.LemmasWrap
+import MakoModel.PyExpr.LemmasWs
+import MakoModel.PyExpr.LemmasIdent
 /-!
 # C19 – embedded Python keeps its meaning through analysis and re-emission
 
@@ -166,5 +168,135 @@ theorem print_well_parenthesised_counterexample_int :
     (Pos.attrValue, c) ∈ (Expr.attribute c ['r', 'e', 'a', 'l']).children
       ∧ needsParens .attrValue c.ck = true ∧ (print c).map isWrapped = some false :=
   ⟨by simp [Expr.children], by decide, by decide⟩
+
+/-! ## `adjust_ws_spec` : re-margining of `<% %>` / `<%! %>` blocks -/
+open MakoModel.PyExpr.Ws in
+/- OPEN  adjust_ws_spec : ∀ text, adjustWhitespace text =
+           joinLines (Spec.remargin (Spec.multiFlags (splitLines text)) none (splitLines text))
+   false today: `in_multi_line` does not know ordinary string literals (a `#` or three quote characters inside one
+   derail it), ignores backslash escapes inside triple-quoted literals, and takes a comment ending in a backslash
+   for a continuation. -/
+
+open MakoModel.PyExpr.Ws in
+/-- **adjust_ws_spec_partial.** For every block (any text, any number of lines) none of whose lines contains one of
+the constructs listed at `Spec.lineHazard`, `adjust_whitespace` computes exactly `Spec.remargin` driven by the
+*lexical specification* of "this line starts inside a string literal or after a backslash continuation"
+(`Spec.multiFlags`, a tokenizer that knows ordinary and triple-quoted literals, escapes, comments and
+continuations).  What `Spec.remargin` guarantees is stated by the next four theorems. -/
+theorem adjust_ws_spec_partial (text : List Char) (hz : Spec.hazardFree (splitLines text) = true) :
+    adjustWhitespace text = joinLines (Spec.remargin (Spec.multiFlags (splitLines text)) none (splitLines text)) := by
+  unfold adjustWhitespace Spec.multiFlags
+  rw [adjust_agree (splitLines text) .code .init none rel_init hz]
+
+open MakoModel.PyExpr.Ws in
+/-- the implementation's `in_multi_line` answers are the specification's, under the same guard -/
+theorem in_multi_line_spec_partial (ls : List Ws.Line) (hz : Spec.hazardFree ls = true) :
+    multiFlags ls = Spec.multiFlags ls :=
+  flags_agree ls .code .init rel_init hz
+
+open MakoModel.PyExpr.Ws in
+/-- the guard is satisfiable by a block with a multi-line triple-quoted literal (containing a `#`, quotes and an
+indented line), an ordinary literal with an escape, a comment and a backslash continuation -/
+example : Spec.hazardFree (splitLines
+    "\n    x = \"\"\"a # 'b'\n  kept \"as is\"\n\"\"\" + 'it\\'s'  # note\n    y = 1 + \\\n  2\n    if x:\n\t    z = y\n".toList) = true := by
+  decide
+
+open MakoModel.PyExpr.Ws in
+/-- **number of lines preserved** (all flag lists, all blocks) -/
+theorem adjust_ws_lines_preserved (fl : List Bool) (m : Option Ws.Line) (ls : List Ws.Line) :
+    (Spec.remargin fl m ls).length = ls.length :=
+  remargin_length fl m ls
+
+open MakoModel.PyExpr.Ws in
+/-- **lines inside a literal / after a continuation are untouched** -/
+theorem adjust_ws_inside_untouched (fl : List Bool) (m : Option Ws.Line) (ls : List Ws.Line) (i : Nat)
+    (h : fl[i]? = some true) : (Spec.remargin fl m ls)[i]? = ls[i]? :=
+  remargin_inside fl m ls i h
+
+open MakoModel.PyExpr.Ws in
+/-- **exactly the margin is removed from every other line**: once the margin `M` of the first code line is known,
+a line outside any literal that starts (after tab expansion) with `M` loses exactly `M.length` characters; the first
+code line itself loses its leading blanks (`remargin_first`); a line without TAB/CR/LF is its own tab expansion. -/
+theorem adjust_ws_margin_removed (fl : List Bool) (M : Ws.Line) (ls : List Ws.Line) (i : Nat) (l : Ws.Line)
+    (hf : fl[i]? = some false) (hl : ls[i]? = some l) (hm : M.isPrefixOf (expandTabs 0 l) = true) :
+    (Spec.remargin fl (some M) ls)[i]? = some ((expandTabs 0 l).drop M.length) := by
+  rw [remargin_outside fl M ls i l hf hl, replaceMargin_drop M _ hm]
+
+open MakoModel.PyExpr.Ws in
+/-- non-trivial instance of the hypotheses: line 1 of a two-line block at margin 4 -/
+example : [false, false][1]? = some false ∧ ["    a = 1".toList, "    b = 2".toList][1]? = some "    b = 2".toList
+    ∧ "    ".toList.isPrefixOf (expandTabs 0 "    b = 2".toList) = true := by decide
+
+open MakoModel.PyExpr.Ws in
+/-- `x = '"""'` followed by `y = 1`, both at margin 4: the three quote characters sit inside an ordinary string
+literal, but `in_multi_line` takes them for the start of a triple-quoted string, so the second line is "inside",
+keeps its margin, and the block no longer compiles; the specification removes the margin from both lines. -/
+theorem adjust_ws_spec_counterexample :
+    adjustWhitespace "    x = '\"\"\"'\n    y = 1".toList = "x = '\"\"\"'\n    y = 1".toList
+    ∧ joinLines (Spec.remargin (Spec.multiFlags (splitLines "    x = '\"\"\"'\n    y = 1".toList)) none
+        (splitLines "    x = '\"\"\"'\n    y = 1".toList)) = "x = '\"\"\"'\ny = 1".toList
+    ∧ Spec.hazardFree (splitLines "    x = '\"\"\"'\n    y = 1".toList) = false := by decide
+
+/-! ## `identifiers_exact` : what is fetched from the template's namespace -/
+
+/-- the `visit_*` inventory of `FindIdentifiers` the model was written against (regenerated; a change shows here) -/
+theorem find_identifiers_inventory :
+    Generated.PyExpr.findIdentVisitors.map String.ofList =
+      ["ClassDef", "Assign", "ExceptHandler", "Lambda", "FunctionDef", "ListComp", "SetComp", "GeneratorExp",
+       "DictComp", "For", "Name", "Import", "ImportFrom"]
+    ∧ Generated.PyExpr.reserved.map String.ofList = ["False", "None", "True", "print"] := by decide
+
+theorem fi_visitors : FIVisitors := by constructor <;> decide
+
+/- OPEN  identifiers_exact : ∀ b, (∀ x, x ∈ fetched b ↔ x ∈ Spec.freeNames b ∧ x ∉ reserved)
+                                ∧ (∀ x, x ∈ (findIdentifiers b).declared ↔ x ∈ Spec.boundNames b)
+   false today (F12, F12b, F12c, F12e-g): `*args`/keyword-only/`**kw`/positional-only parameters are fetched,
+   comprehension variables are recorded as block-level names, default values, decorators, class headers and bodies
+   and the element/conditions of a comprehension inside a function are never looked at, `del x` counts as a read,
+   locals of a nested function are order-dependent. -/
+
+/-- **identifiers_exact_partial.** For every block without nested scopes (`flatBlock`: no lambda, comprehension,
+`def`, `class`, `del`, `global`; everything else at any nesting depth):
+* *soundness and precision*: the names fetched from the template's namespace on behalf of the block
+  (`undeclared − declared`, what `write_variable_declares` keeps) are **exactly** the free names of the block as a
+  Python function body, except the reserved ones (`True False None print`);
+* the names recorded as declared are exactly the names the block binds. -/
+theorem identifiers_exact_partial (b : List Stmt) (h : flatBlock b = true) :
+    (∀ x, x ∈ fetched b ↔ (x ∈ Spec.freeNames b ∧ x ∉ Generated.PyExpr.reserved))
+    ∧ (∀ x, x ∈ (findIdentifiers b).declared ↔ x ∈ Spec.boundNames b) :=
+  ⟨(flat_exact fi_visitors b h).2, (flat_exact fi_visitors b h).1⟩
+
+/-- the guard is satisfiable:
+`for i, (j, k) in z: (try: a.b[i] = f(j, *c, **d) except E as e: import os.path as p) else: q = (w := i) if u else {k: v}` -/
+example : flatBlock [.for_ (.tuple [.name ['i'] .store, .tuple [.name ['j'] .store, .name ['k'] .store]])
+    (.name ['z'] .load)
+    [.try_ [.assign [.subscript (.attribute (.name ['a'] .load) ['b']) (.name ['i'] .load)]
+              (.call (.name ['f'] .load) [.name ['j'] .load, .starred (.name ['c'] .load)]
+                [.mk none (.name ['d'] .load)])]
+           [.mk (some (.name ['E'] .load)) (some ['e']) [.import_ [⟨['o', 's', '.', 'p'], some ['p']⟩]]] [] []]
+    [.assign [.name ['q'] .store] (.ifExp (.name ['u'] .load) (.namedExpr (.name ['w'] .store) (.name ['i'] .load))
+      (.dict [.mk (some (.name ['k'] .load)) (.name ['v'] .load)]))]] = true := by decide
+
+/-- `def f(*b, c=1, **d): return (b, c, d)`: `b`, `c`, `d` are parameters, yet all three are fetched from the
+context (F12) -/
+theorem identifiers_exact_counterexample_params :
+    let blk := [Stmt.functionDef ['f'] (.mk [] [] (some ['b']) [['c']] [some (.const .int ['1'])] (some ['d']) [])
+      [.return_ (some (.tuple [.name ['b'] .load, .name ['c'] .load, .name ['d'] .load]))] []]
+    fetched blk = [['b'], ['c'], ['d']] ∧ Spec.freeNames blk = [] := by decide
+
+/-- `y = [x for x in z]; w = x`: the later `x` is a free name of the block, but the comprehension variable was
+recorded as declared, so `x` is not fetched (F12b); and `def f(a=b): return a` / `class A(B): c = d`: `b`, `B`, `d` are
+free but never seen (F12c) -/
+theorem identifiers_exact_counterexample_missing :
+    (let blk := [Stmt.assign [.name ['y'] .store]
+                  (.listComp (.name ['x'] .load) [.mk (.name ['x'] .store) (.name ['z'] .load) [] false]),
+                 Stmt.assign [.name ['w'] .store] (.name ['x'] .load)]
+     fetched blk = [['z']] ∧ Spec.freeNames blk = [['z'], ['x']]
+      ∧ (findIdentifiers blk).declared = [['x'], ['y'], ['w']] ∧ Spec.boundNames blk = [['y'], ['w']])
+    ∧ (let blk := [Stmt.functionDef ['f'] (.mk [] [['a']] none [] [] none [.name ['b'] .load])
+                    [.return_ (some (.name ['a'] .load))] []]
+       fetched blk = [] ∧ Spec.freeNames blk = [['b']])
+    ∧ (let blk := [Stmt.classDef ['A'] [.name ['B'] .load] [] [.assign [.name ['c'] .store] (.name ['d'] .load)] []]
+       fetched blk = [] ∧ Spec.freeNames blk = [['B'], ['d']]) := by decide
 
 end MakoModel.C19
